@@ -16,6 +16,12 @@ fn render(r: Option<BigDecimal>) -> String { match r { Some(d) => format!("ok:{}
 
 type VErr = serde::de::value::Error;
 
+/// the scale limit this build of the library was configured with: the harness is compiled under the same
+/// environment as the library's build script (RUST_BIGDECIMAL_SERDE_SCALE_LIMIT, default 150000)
+pub fn built_scale_limit() -> u64 {
+    option_env!("RUST_BIGDECIMAL_SERDE_SCALE_LIMIT").and_then(|s| s.parse().ok()).unwrap_or(150_000)
+}
+
 pub fn exec(op: &str, args: &[&str]) -> String {
     match op {
         "ser_str" => {
@@ -132,6 +138,26 @@ pub fn generate(rng: &mut Rng, tier: &str, shard: usize, nshards: usize, out: &m
     let thorough = tier == "thorough";
     let mut n = 0usize;
     let mut emit = |line: String, n: &mut usize| { *n += 1; if *n % nshards == shard { out(line); } };
+    // a build with a non-default scale limit (the configuration stage of C17): the json_num adapters around that limit,
+    // the limit travelling with every line (0 = no limit)
+    let lim = built_scale_limit();
+    if lim != 150_000 {
+        let around: Vec<i64> = { let l = lim as i64; let mut v = vec![0, 1, -1, 2, -2, 3, 20, -20, 149_999, 150_000, 150_001, -150_001, 4_000_000, -4_000_000];
+                                 for d in -2..=2 { v.push(l + d); v.push(-l + d); } v };
+        let total = if thorough { 20_000 } else { 2_000 };
+        for i in 0..total {
+            let digits = 1 + rng.below(if i % 7 == 0 { 40 } else { 6 }) as usize;
+            let v = gen_int_len(rng, digits);
+            let sc = if rng.chance(2, 3) { *rng.pick(&around) } else { rng.range(-30, 30) };
+            let a = dec(v, sc);
+            emit(format!("C17\tjsonnum_ser\t{}\t{}", show(&a), lim), &mut n);
+            // number texts with an explicit exponent, so that the scale is what the text says
+            let mant = gen_int_len(rng, digits);
+            let t = format!("{}e{}", mant, -sc);
+            emit(format!("C17\tjsonnum_de\t{}\t{}", hex(t.as_bytes()), lim), &mut n);
+        }
+        return;
+    }
     // exponents at the ends of the i64 scale range (the scale-limit test must not overflow on them)
     for body in ["1", "-7.5", "0", "0.25", "123456789012345678901234567890"] {
         for e in ["9223372036854775806", "9223372036854775807", "9223372036854775808", "9223372036854775809",
